@@ -169,4 +169,125 @@ theorem readAllFuel_render (hm : Gen.Tape.readMarker = [1, 1, 1, 60, 90]) (bs : 
       rw [← List.append_assoc]
       exact this
 
+/-! ### idle stretches that may hold any byte, 3C included, as long as no start-of-block pattern occurs in them -/
+
+open Spec.K7 in
+theorem startsWith_marker_eq (l : Bytes) : startsWith [1, 1, 1, 60, 90] l = beginsWithMarker l := by
+  match l with
+  | [] => rfl
+  | [a] =>
+    by_cases ha : a = 1 <;> simp_all [startsWith, beginsWithMarker] <;> omega
+  | [a, b] =>
+    by_cases ha : a = 1 <;> by_cases hb : b = 1 <;> simp_all [startsWith, beginsWithMarker] <;> omega
+  | [a, b, c] =>
+    by_cases ha : a = 1 <;> by_cases hb : b = 1 <;> by_cases hc : c = 1 <;> simp_all [startsWith, beginsWithMarker] <;> omega
+  | [a, b, c, d] =>
+    by_cases ha : a = 1 <;> by_cases hb : b = 1 <;> by_cases hc : c = 1 <;> by_cases hd : d = 60 <;>
+      simp_all [startsWith, beginsWithMarker] <;> omega
+  | a :: b :: c :: d :: e :: r =>
+    by_cases ha : a = 1 <;> by_cases hb : b = 1 <;> by_cases hc : c = 1 <;> by_cases hd : d = 60 <;> by_cases he : e = 90 <;>
+      simp_all [startsWith, beginsWithMarker] <;> omega
+
+open Spec.K7 in
+theorem findSub_none_of_idle : ∀ (g : Bytes), idle g = true → findSub [1, 1, 1, 60, 90] g = none
+  | [], _ => rfl
+  | x :: xs, h => by
+    simp only [idle, Bool.and_eq_true, Bool.not_eq_true'] at h
+    simp only [findSub, startsWith_marker_eq, h.1, findSub_none_of_idle xs h.2]
+    simp
+
+open Spec.K7 in
+/-- a 3C-free stretch is idle -/
+theorem idle_of_no_3C : ∀ (g : Bytes), 60 ∉ g → idle g = true
+  | [], _ => rfl
+  | x :: xs, h => by
+    have hx : 60 ∉ xs := fun h' => h (by simp [h'])
+    have hs : beginsWithMarker (x :: xs) = false := by
+      rw [← startsWith_marker_eq]
+      cases hh : startsWith [1, 1, 1, 60, 90] (x :: xs) with
+      | false => rfl
+      | true => exact absurd (startsWith_marker_has_3C _ hh) h
+    simp [idle, hs, idle_of_no_3C xs hx]
+
+open Spec.K7 in
+/-- no pattern begins inside an idle stretch that is followed by a leader of at least three 01: the pattern's 3C 5A would
+    have to sit on the leader's 01 bytes -/
+theorem no_match_in_idle (x : Nat) (xs : Bytes) (n : Nat) (r : Bytes) (h : beginsWithMarker (x :: xs) = false) (hn : 3 ≤ n) :
+    beginsWithMarker (x :: xs ++ List.replicate n 1 ++ [60, 90] ++ r) = false := by
+  obtain ⟨m, rfl⟩ : ∃ m, n = m + 3 := ⟨n - 3, by omega⟩
+  simp only [List.replicate_succ]
+  match xs with
+  | [] =>
+    by_cases ha : x = 1 <;> simp_all [beginsWithMarker] <;> omega
+  | [b] =>
+    by_cases ha : x = 1 <;> by_cases hb : b = 1 <;> simp_all [beginsWithMarker] <;> omega
+  | [b, c] =>
+    by_cases ha : x = 1 <;> by_cases hb : b = 1 <;> by_cases hc : c = 1 <;> simp_all [beginsWithMarker] <;> omega
+  | [b, c, d] =>
+    by_cases ha : x = 1 <;> by_cases hb : b = 1 <;> by_cases hc : c = 1 <;> by_cases hd : d = 60 <;> simp_all [beginsWithMarker] <;> omega
+  | b :: c :: d :: e :: rest =>
+    by_cases ha : x = 1 <;> by_cases hb : b = 1 <;> by_cases hc : c = 1 <;> by_cases hd : d = 60 <;> by_cases he : e = 90 <;>
+      simp_all [beginsWithMarker] <;> omega
+
+open Spec.K7 in
+/-- `find` locates the block marker at the last three 01 of the leader, whatever the idle stretch before it holds -/
+theorem findSub_marker_idle : ∀ (g : Bytes) (n : Nat) (r : Bytes), idle g = true → 3 ≤ n →
+    findSub [1, 1, 1, 60, 90] (g ++ List.replicate n 1 ++ [60, 90] ++ r) = some (g.length + n - 3)
+  | [], n, r, _, hn => findSub_marker [] n r (by simp) hn
+  | x :: xs, n, r, hg, hn => by
+    simp only [idle, Bool.and_eq_true, Bool.not_eq_true'] at hg
+    have hstart := no_match_in_idle x xs n r hg.1 hn
+    have ih := findSub_marker_idle xs n r hg.2 hn
+    simp only [List.cons_append] at hstart ⊢
+    simp only [findSub, startsWith_marker_eq, hstart, ih]
+    simp; omega
+
+/-- one `nextBlock` over a rendered block preceded by an idle stretch -/
+theorem nextBlock_block_idle (hm : Gen.Tape.readMarker = [1, 1, 1, 60, 90])
+    (g : Bytes) (b : Spec.K7.WBlock) (rest : Bytes) (hg : Spec.K7.idle g = true) (hb : b.wfIdle) :
+    nextBlock (g ++ Spec.K7.renderBlock b ++ rest) = (some (Spec.K7.frame b.ty b.payload), b.gap ++ rest) := by
+  obtain ⟨h3, hp, _⟩ := hb
+  unfold nextBlock Spec.K7.renderBlock
+  rw [hm]
+  have e : g ++ (List.replicate b.lead 1 ++ [60, 90] ++ Spec.K7.frame b.ty b.payload ++ b.gap) ++ rest
+      = g ++ List.replicate b.lead 1 ++ [60, 90] ++ (Spec.K7.frame b.ty b.payload ++ (b.gap ++ rest)) := by
+    simp [List.append_assoc]
+  rw [e, findSub_marker_idle g b.lead _ hg h3]
+  simp only
+  have hd : (g ++ List.replicate b.lead 1 ++ [60, 90] ++ (Spec.K7.frame b.ty b.payload ++ (b.gap ++ rest))).drop
+      (g.length + b.lead - 3 + [1, 1, 1, 60, 90].length) = Spec.K7.frame b.ty b.payload ++ (b.gap ++ rest) := by
+    have : g.length + b.lead - 3 + [1, 1, 1, 60, 90].length = (g ++ List.replicate b.lead 1 ++ [60, 90]).length := by
+      simp; omega
+    rw [this, List.drop_left]
+  rw [hd]
+  have hlen : (Spec.K7.frame b.ty b.payload ++ (b.gap ++ rest)).length ≥ 2 := by simp [Spec.K7.frame]
+  simp only [hlen, if_true]
+  obtain ⟨h1, h2⟩ := frame_take b.ty b.payload (b.gap ++ rest) hp
+  rw [h1, h2]
+
+/-- **reader over a rendered tape whose idle stretches may hold anything but the start-of-block pattern**: all blocks, in
+    order, nothing else (what follows the last block is that block's idle stretch) -/
+theorem readAllFuel_render_idle (hm : Gen.Tape.readMarker = [1, 1, 1, 60, 90]) (bs : List Spec.K7.WBlock) :
+    ∀ (g : Bytes) (fuel : Nat), Spec.K7.idle g = true → (∀ b ∈ bs, b.wfIdle) → bs.length < fuel →
+    readAllFuel fuel (g ++ bs.flatMap Spec.K7.renderBlock) = bs.map (fun b => Spec.K7.frame b.ty b.payload) := by
+  induction bs with
+  | nil =>
+    intro g fuel hg _ hf
+    cases fuel with
+    | zero => omega
+    | succ f => simp [readAllFuel, nextBlock, hm, findSub_none_of_idle _ hg]
+  | cons b bs ih =>
+    intro g fuel hg hwf hf
+    cases fuel with
+    | zero => omega
+    | succ f =>
+      have hb := hwf b (by simp)
+      have e : g ++ (b :: bs).flatMap Spec.K7.renderBlock
+          = g ++ Spec.K7.renderBlock b ++ (bs.flatMap Spec.K7.renderBlock) := by
+        simp [List.append_assoc]
+      rw [e]
+      simp only [readAllFuel, nextBlock_block_idle hm g b _ hg hb, List.map_cons]
+      congr 1
+      exact ih b.gap f hb.2.2 (fun b' hb' => hwf b' (by simp [hb'])) (by simp at hf; omega)
+
 end Moto.Tape
